@@ -71,6 +71,15 @@ CLAIMED = {
              "Tied to the code by a bitwise differential (setters vs Difficulty, mode builders, round trip, clamps, shuffled "
              "orders, irrelevant setters).",
         tech="Coq proof over a Difficulty model and translator-generated dispatch tables + bitwise differential"),
+    "C09": dict(
+        text="Partial by nature. Coq theorems: the four ScoreState::accuracy functions lie in [0,1] for every state with "
+             "non-negative counts and every origin, zero-denominator guard included (exact model tied to the code within 1e-12 "
+             "on every recorded state); the decay-weighted sum of peaks in [0,M] is non-negative and bounded by M*k/(1-w). "
+             "Finiteness and sign of everything that goes through pow/ln/erf/sqrt (skill evaluators, pp formulas) cannot be "
+             "proved with the installed tooling (no bit-exact libm model): decided by scanning every f64 field of difficulty, "
+             "strain and performance attributes on degenerate and ordinary maps x every prefix x consistent score states x "
+             "settings in the reachable ranges; zero hits = zero pp is checked there too.",
+        tech="Coq proofs for accuracy range and weighted-sum bound + exhaustive float-field scan"),
     "C10": dict(
         text="Coq theorem (unbounded push sequences): for every sequence of 64-bit words other than a positive NaN the compact "
              "strain list and the raw_strains Vec<f64> have the same length, iteration, into_vec and sorted non-zero vector "
